@@ -391,6 +391,9 @@ func (repo *GoGitRepo) FetchRefs(remote string, prefixes ...string) (string, err
 		RemoteName: remote,
 		RefSpecs:   refSpecs,
 		Progress:   buf,
+		// only what was asked for: by default go-git also follows the tags of the remote, and
+		// creates or moves refs/tags/* of the host project
+		Tags: gogit.NoTags,
 	})
 	if err == gogit.NoErrAlreadyUpToDate {
 		return "already up-to-date", nil
